@@ -213,10 +213,12 @@ theorem c19_x_globs :
     loadQPRPathsPattern = "path.Join(as.config.DataDir, id+\"*\"+qprExtension)" ∧
     loadAsyncSearchesPattern = "path.Join(dataDir, \"*\"+asyncSearchFileExtension)" := by decide
 
-/-- `doSearch` skips exactly the fractions that already have a result file, marks Done after the loop, and
+/-- `doSearch` skips exactly the fractions that already have a result file (and, in the repaired code, a recorded
+fraction that no longer exists - removed by retention), marks Done after the loop, and
 `processFrac` persists through the atomic write -/
 theorem c19_x_dosearch :
-    doSearchSkips = ["_, ok := processedFracs[fracInfo.Name]; ok"] ∧ doSearchDone = ["state.Done = true"] ∧
+    (doSearchSkips = ["_, ok := processedFracs[fracInfo.Name]; ok"] ∨
+     doSearchSkips = ["_, ok := processedFracs[fracInfo.Name]; ok", "!ok"]) ∧ doSearchDone = ["state.Done = true"] ∧
     doSearchCalls = ["as.loadQPRPaths", "as.processFrac", "as.updateSearchInfo"] ∧
     processFracCalls = ["dp.Search", "json.Marshal", "zstd.CompressLevel", "mustWriteFileAtomic"] := by decide
 
@@ -285,6 +287,30 @@ theorem c19_x_api_start :
 `handlerFetch true ..` of `c19_api_docs_one_per_id` is the code -/
 theorem c19_x_api_docs_nil_safe : makeProtoDocsNilSafe = true := by decide
 
+/-- **the resumed search finds every recorded fraction**: `doSearch` looks the recorded names (`state.Fractions`) up among
+ALL fractions of the store - not among those that pass the range filter NOW.  (A fraction that was active when the
+search started and is sealed before it is processed gets a MIDs distribution; re-filtering then dropped it from the
+lookup and `processFrac` ran on a nil fraction: crash loop - fixes/C19-async-resume-sealed-fraction-nil.patch.)
+The model's `resumeWrites` searches every recorded, unprocessed name. -/
+theorem c19_x_resume_lookup :
+    doSearchFracLookup = ["as.fracManager.GetAllFracs()", "state.Fractions"] := by decide
+
+/-- **the aggregation function survives the store's echo**: the table `seq.AggFunc -> wire` is the identity on the
+declared order (Count, Sum, Min, Max, Avg, Quantile, Unique = 0..6, as the wire enum), its inverse is built from it by
+`mappings[to] = from`, `ToProtoAggFunc` reads the table and `ToAggFunc`/`MustAggFunc` the inverse - with
+`c19_aggfunc_roundtrip`, `MustAggFunc(MustProtoAggFunc(f)) = f` for every function -/
+theorem c19_x_aggfunc :
+    aggFuncTable = ["seq.AggFuncCount: AggFunc_AGG_FUNC_COUNT", "seq.AggFuncSum: AggFunc_AGG_FUNC_SUM",
+      "seq.AggFuncMin: AggFunc_AGG_FUNC_MIN", "seq.AggFuncMax: AggFunc_AGG_FUNC_MAX", "seq.AggFuncAvg: AggFunc_AGG_FUNC_AVG",
+      "seq.AggFuncQuantile: AggFunc_AGG_FUNC_QUANTILE", "seq.AggFuncUnique: AggFunc_AGG_FUNC_UNIQUE"] ∧
+    aggFuncInverse = ["for from, to := range funcMappings", "mappings[to] = seq.AggFunc(from)"] ∧
+    aggFuncUses = ["ToAggFunc: funcMappingsPb[f]", "MustAggFunc: funcMappingsPb[f]", "ToProtoAggFunc: funcMappings[f]"] := by decide
+
+/-- the round trip through an injective table and its inverse (instantiated: the seven functions, wire values 0..6) -/
+theorem c19_aggfunc_roundtrip (t : List Nat) (hnd : t.Nodup) (i : Nat) (hi : i < t.length) (hv : t[i] < t.length) :
+    (SV.Async.invTable t)[t[i]]? = some i :=
+  SV.Async.aggFunc_roundtrip t hnd i hi hv
+
 /-- the source contains the repaired fold (the model used by `c19_eq_sync_hist`) -/
 theorem c19_x_fetch_fixed : fetchUsesRequestInterval = true := by decide
 
@@ -338,6 +364,9 @@ example : SV.ProxyAsync.AllAccepted [[.notFound, .ok true ⟨[7], 0, some []⟩]
 /-- two searches accepted, the second still queued, a crash, the first finishes later: both are on disk -/
 example : (AsyncAck.run [.start "a" false, .start "b" false, .work, .crash, .finish "a"]).disk = [("b", false), ("a", true)] ∧
     (AsyncAck.run [.start "a" false, .start "b" false, .work, .crash, .finish "a"]).acked = ["b", "a"] := by decide
+
+/-- the seven aggregation functions: every one comes back from the wire as itself -/
+example : ∀ i, i < 7 → (SV.Async.invTable [0, 1, 2, 3, 4, 5, 6])[[0, 1, 2, 3, 4, 5, 6].getD i 0]? = some i := by decide
 
 /-- a three-fraction layout satisfying the hypotheses of `c19_eq_sync_*` -/
 example : (docsOf [(⟨2, 20, 40, [key 40 0, key 20 1]⟩ : Frac), ⟨2, 10, 30, [key 30 1, key 10 0]⟩, ⟨2, 5, 25, [key 25 0, key 5 7]⟩]).Nodup ∧
